@@ -329,8 +329,16 @@ def _exit_paths(fa, cap=20000):
                 return True
         return any(isinstance(x, ast.Call) and not (A.dotted(x.func) or "").startswith("log.") for x in A.walk_local(a))
 
+    def truth_of(t):
+        """`bool(E)` tested is `E` tested"""
+        while isinstance(t, ast.Call) and isinstance(t.func, ast.Name) and t.func.id == "bool" and len(t.args) == 1 and not t.keywords \
+                and not isinstance(t.args[0], ast.Starred):
+            t = t.args[0]
+        return t
+
     def atoms(t, node_id, positive, env, path):
         """literals of test `t` taken with the given polarity; None = this branch is infeasible."""
+        t = truth_of(t)
         if isinstance(t, ast.UnaryOp) and isinstance(t.op, ast.Not):
             return atoms(t.operand, node_id, not positive, env, path)
         if isinstance(t, ast.BoolOp) and ((isinstance(t.op, ast.And) and positive) or (isinstance(t.op, ast.Or) and not positive)):
@@ -345,6 +353,7 @@ def _exit_paths(fa, cap=20000):
             return [] if bool(t.value) == positive else None
         if isinstance(t, ast.Name) and t.id in env:
             val, dnode, didx = env[t.id]
+            val = truth_of(val)
             if isinstance(val, ast.Constant):
                 return [] if bool(val.value) == positive else None
             if isinstance(val, (ast.Compare, ast.BoolOp, ast.UnaryOp, ast.Name, ast.Attribute)) and not any(isinstance(x, ast.Call) for x in ast.walk(val)) \
@@ -385,6 +394,7 @@ def _exit_paths(fa, cap=20000):
         """The ways test `t` can come out with the given polarity, each a list of literals.  A conjunction taken true is
         one way; a disjunction taken true (a conjunction taken false) is decided by the first operand that settles it,
         the earlier ones having come out the other way (short circuit) - one way per operand."""
+        t = truth_of(t)
         if isinstance(t, ast.UnaryOp) and isinstance(t.op, ast.Not):
             return alts(t.operand, node_id, not positive, env, path)
         if isinstance(t, ast.BoolOp):
@@ -401,6 +411,7 @@ def _exit_paths(fa, cap=20000):
             return res
         if isinstance(t, ast.Name) and t.id in env:
             val, dnode, didx = env[t.id]
+            val = truth_of(val)
             if isinstance(val, (ast.BoolOp, ast.UnaryOp)) and not any(isinstance(x, ast.Call) for x in ast.walk(val)) \
                     and not any(effectful(cfg.node(i)) for i in path[didx + 1:]):
                 return alts(val, dnode, positive, {k: v for k, v in env.items() if v[2] < didx}, path[:didx])
@@ -3352,6 +3363,46 @@ def check_locked_freezes_last_definition(ck, R):
                     and cls_text(ini.xnorm(s_.value, at_)) == GEN:
                 recorded.setdefault(t.attr, []).append(s_)
 
+    # ... or that a method of the class called by the registration sets from it, on the conditions this very call satisfies
+    # (`increment_global_fn_generation(reason, definition=True)`): the call stands for the assignment then
+    recorded_by_call = {}   # attribute -> [(call in __init__, the bump happens inside the callee before the recording)]
+    owner = ck.repo.cls(MF)
+    for c in ini.calls():
+        rc, nm = A.call_recv(c), A.call_attr(c)
+        m = owner.methods.get(nm or "")
+        if rc is None or m is None or nm == "__init__" or not ini.nodes(c) or \
+                not re.fullmatch(r"MementoFunction|type\(self\)|self\.__class__|self|cls", ini.xnorm(rc, ini.nodes(c)[0]) or ""):
+            continue
+        fx = FA(ck, m)
+        me = m.params[0] if m.params and not m.is_static else None
+
+        def own(t, _me=me):
+            return re.sub(r"\b%s\." % re.escape(_me), "MementoFunction.", cls_text(t)) if _me else cls_text(t)
+
+        bumps = [b for b in fx.stmts(ast.AugAssign) if fx.nodes(b) and own(A.norm(b.target)) == GEN] + \
+            [b for b in fx.calls("increment_global_fn_generation") if fx.nodes(b)]
+        for s_ in fx.stmts(ast.Assign):
+            if not fx.nodes(s_) or own(fx.xnorm(s_.value, fx.nodes(s_)[0])) != GEN:
+                continue
+            for t in s_.targets:
+                if not (isinstance(t, ast.Attribute) and own(A.norm(t.value) + ".x") == "MementoFunction.x"):
+                    continue
+                dnf = fx.conditions(s_)
+                if dnf is None:
+                    continue
+                holds = False
+                for conj in dnf:
+                    okc = True
+                    for (txt, pol) in conj:
+                        a_ = _call_arg(ck, c, m.qual, txt) if txt in m.params else None
+                        okc = okc and isinstance(a_, ast.Constant) and bool(a_.value) == pol
+                    holds = holds or okc
+                if holds:
+                    inside = bool(bumps) and all(fx.cfg.must_pass(fx.nodes_all(bumps), i) for i in fx.nodes(s_))
+                    recorded_by_call.setdefault(t.attr, []).append((c, inside))
+    for k_ in recorded_by_call:
+        recorded.setdefault(k_, [])
+
     def is_locked(text):
         e = _parse_lit(text)
         return isinstance(e, ast.Attribute) and e.attr == "locked" and "get_cluster(" in text
@@ -3423,13 +3474,16 @@ def check_locked_freezes_last_definition(ck, R):
     if "MementoFunction." + counter_name != GEN:
         regs = ini.nodes_all(ini.calls("register_function"))
         incs = ini.nodes_all(ini.calls("increment_global_fn_generation"))
-        asn = ini.nodes_all(recorded.get(counter_name, []))
-        ok2 = bool(regs) and bool(asn) and all(ini.cfg.must_pass(asn, i) for i in regs) and bool(incs) and all(ini.cfg.must_pass(incs, a) for a in asn)
+        by_call = recorded_by_call.get(counter_name, [])
+        asn = ini.nodes_all(recorded.get(counter_name, [])) + ini.nodes_all([c for (c, _in) in by_call])
+        bumped_inside = set(ini.nodes_all([c for (c, inside) in by_call if inside]))
+        ok2 = bool(regs) and bool(asn) and all(ini.cfg.must_pass(asn, i) for i in regs) and bool(incs) \
+            and all(a in bumped_inside or ini.cfg.must_pass(incs, a) for a in asn)
         # no bump between the recording and the registration
         if ok2:
             for a in asn:
                 between = ini.cfg.reach([a], include_start=False)
-                if any(i in between and any(r in ini.cfg.reach([i], include_start=False) for r in regs) for i in incs):
+                if any(i != a and i in between and any(r in ini.cfg.reach([i], include_start=False) for r in regs) for i in incs):
                     ok2 = False
         ck.ob(R, ini.key(None, "last-definition-recorded"), ok2, "registration records the generation of the definition, after the bump" if ok2 else
               "a function can be registered without `MementoFunction.%s` having been set to the generation of this definition (after the bump): "
@@ -3441,10 +3495,15 @@ def check_locked_freezes_last_definition(ck, R):
                 tg = s_.targets if isinstance(s_, ast.Assign) else [s_.target] if isinstance(s_, (ast.AugAssign, ast.AnnAssign)) else []
                 for t in tg:
                     if isinstance(t, ast.Attribute) and t.attr == counter_name and _direct_parent_func_is(fi, s_):
-                        okw = isinstance(s_, ast.Assign) and cls_text(A.norm(s_.value)) == GEN or (fi.qual == MF + ".__init__" and s_ in recorded.get(counter_name, []))
+                        me_ = fi.params[0] if fi.is_classmethod and fi.params else None
+
+                        def own_(t_, _me=me_):
+                            return re.sub(r"\b%s\." % re.escape(_me), "MementoFunction.", cls_text(t_)) if _me else cls_text(t_)
+
+                        okw = isinstance(s_, ast.Assign) and own_(A.norm(s_.value)) == GEN or (fi.qual == MF + ".__init__" and s_ in recorded.get(counter_name, []))
                         if not okw:
                             fx = FA(ck, fi)
-                            okw = isinstance(s_, ast.Assign) and bool(fx.nodes(s_)) and cls_text(fx.xnorm(s_.value, fx.nodes(s_)[0])) == GEN
+                            okw = isinstance(s_, ast.Assign) and bool(fx.nodes(s_)) and own_(fx.xnorm(s_.value, fx.nodes(s_)[0])) == GEN
                             ck.ob(R, fx.key(s_, "last-definition-only-from-generation"), okw, "the counter is set from the current generation" if okw else
                                   "`%s` gives the generation of the last definition a value other than the current generation: versions older than the "
                                   "last definition pass the locked exit" % A.short(s_, 60), fx.where(s_))
